@@ -13,7 +13,7 @@ import (
 	"strings"
 	"time"
 
-	_ "buf.build/gen/go/bufbuild/protovalidate/protocolbuffers/go/buf/validate"
+	"buf.build/gen/go/bufbuild/protovalidate/protocolbuffers/go/buf/validate"
 	_ "github.com/pentops/j5/gen/j5/auth/v1/auth_j5pb"
 	_ "github.com/pentops/j5/gen/j5/client/v1/client_j5pb"
 	_ "github.com/pentops/j5/gen/j5/config/v1/config_j5pb"
@@ -58,6 +58,11 @@ var pkgNames []string
 var featureTypes []*TypeInfo
 var twinList []*TypeInfo
 
+// genTypesEnabled: this process draws workloads over types compiled from generated bundles. Only
+// every third worker does: compiling a bundle runs a lot of j5 code (the BCL parser reflects its own
+// schema) before any task exists, and the other workers must keep meeting process-wide state cold.
+var genTypesEnabled bool
+
 // key returns the name an OpSpec uses for the type.
 func (ti *TypeInfo) key() string {
 	if ti.Key != "" {
@@ -88,6 +93,11 @@ func staticallyUnreflectable(md protoreflect.MessageDescriptor, seen map[protore
 		switch fd.Kind() {
 		case protoreflect.Fixed32Kind, protoreflect.Fixed64Kind, protoreflect.Sfixed32Kind, protoreflect.Sfixed64Kind, protoreflect.GroupKind:
 			return true
+		case protoreflect.BoolKind:
+			// a const rule on a bool makes the schema build panic today (nil rules dereferenced)
+			if c, ok := proto.GetExtension(fd.Options(), validate.E_Field).(*validate.FieldConstraints); ok && c.GetBool() != nil && c.GetBool().Const != nil {
+				return true
+			}
 		case protoreflect.EnumKind:
 			if vals := fd.Enum().Values(); vals.Len() == 0 || !strings.HasSuffix(string(vals.Get(0).Name()), "UNSPECIFIED") {
 				return true
@@ -535,7 +545,7 @@ type Prepared struct {
 }
 
 func prepare(spec OpSpec) *Prepared {
-	ti := catByName[spec.Type]
+	ti := typeByKey(spec.Type)
 	if ti == nil {
 		panic("unknown type " + spec.Type)
 	}
@@ -1065,6 +1075,15 @@ func genWorkload(seed uint64, deep bool) *Workload {
 		n := 2 + rng.Intn(4)
 		for i := 0; i < n; i++ {
 			pool = append(pool, pickGood(rng))
+		}
+	}
+	if genTypesEnabled && rng.Bool(0.15) {
+		// schema shapes nobody wrote by hand: 2-5 message types of one generated bundle
+		if tis := genBundle(rng.Intn(genBundles)); len(tis) > 0 {
+			pool = nil
+			for i, n := 0, 2+rng.Intn(4); i < n; i++ {
+				pool = append(pool, tis[rng.Intn(len(tis))])
+			}
 		}
 	}
 	if len(twinList) > 0 && rng.Bool(0.12) {
